@@ -625,6 +625,17 @@ def replay(ctx, data):
             print("op", wire_op(o), "\n  impl:", r, state, "\n  dict:", rr, rstate)
         if ctx.model:
             print("model:", ctx.model.call("c17_trace", [wire_op(o) for o in inp["ops"]]))
+    elif isinstance(inp, dict) and "good" in inp:
+        cls = dict(classes(ctx))[inp["class"]]
+        d = cls([(pykey(k), v) for k, v in inp["first"]])
+        bad = eval(inp["bad"])       # one of ("zz",), ("a", 1, 2), 7, None: written by this harness
+        print("before:", list(d.items()))
+        try:
+            d.update([(pykey(k), v) for k, v in inp["good"]] + [bad])
+            print("update() accepted the malformed pair", bad)
+        except (ValueError, TypeError) as e:
+            print("update(", inp["good"], "+ [", bad, "]) raised", type(e).__name__)
+        print("after :", list(d.items()), "\ndict.update leaves:", data.get("expected"))
     else:
         from icalendar.caselessdict import canonsort_keys
         print("impl :", canonsort_keys(inp[0], inp[-1] if isinstance(inp[-1], list) else inp[1]))
